@@ -81,6 +81,10 @@ func (fr *frame) evalClause(cl *Clause, blk *ssa.BasicBlock, st *State, extra ma
 func (ex *Exec) evalCallClause(c *Contract, cl *Clause, vars map[string]Val, st, old *State) string {
 	n := 0
 	ce := &cenv{ex: ex, pkg: c.Pkg, vars: vars, st: st, old: old, nq: &n}
+	if ex.callerFrame != nil {
+		ce.fr = ex.callerFrame
+		ce.blk = ex.callerFrame.curBlk
+	}
 	ex.pure++
 	defer func() { ex.pure-- }()
 	return ex.pureScope(func() string {
@@ -214,6 +218,20 @@ func (fr *frame) lookupLocal(name string, blk *ssa.BasicBlock, st *State) (Val, 
 		}
 	}
 	// single-definition locals via debug refs
+	// an address-taken variable: its cell is the Alloc carrying the variable's name
+	for _, b := range fr.fn.Blocks {
+		for _, ins := range b.Instrs {
+			if a, ok := ins.(*ssa.Alloc); ok && a.Comment == name {
+				if pv, have := fr.vals[a]; have {
+					v := fr.ex.load(st, pv)
+					if f, ok := fr.ex.cellFuncs[cellKey(pv)]; ok {
+						v.F = f
+					}
+					return v, true
+				}
+			}
+		}
+	}
 	vs := fr.ex.w.localDefs(fr.fn)[name]
 	if len(vs) > 1 {
 		// an address-taken variable has one address definition: prefer it (its current content is loaded)
@@ -236,7 +254,16 @@ func (fr *frame) lookupLocal(name string, blk *ssa.BasicBlock, st *State) (Val, 
 			return v, true
 		}
 	}
-	// named results that are allocs
+	// a variable of the lexically enclosing function that this closure does not capture
+	if fr.fn.Parent() != nil {
+		if p, ok := fr.ex.parentLocal(fr.fn, name); ok {
+			v := fr.ex.load(st, p)
+			if cal := fr.ex.w.closureStoredIn(fr.fn, name); cal != nil {
+				v.F = &FuncInfo{Fn: cal}
+			}
+			return v, true
+		}
+	}
 	return Val{}, false
 }
 
@@ -777,6 +804,20 @@ func (ce *cenv) pseudo(name string, x *ast.CallExpr) (Val, bool) {
 		n := *ce
 		n.st = ce.old
 		return n.eval(x.Args[0]), true
+	case "atlock": // value when the (single) monitor lock was acquired; at a call site: the state before the call
+		n := *ce
+		if ce.fr != nil && len(ce.fr.lockSnap) == 1 && ex.callerFrame == nil {
+			for _, s := range ce.fr.lockSnap {
+				n.st = s
+			}
+		} else if ex.callerFrame != nil {
+			// the callee acquires the lock somewhere inside the call: the protected state it saw is unknown to the
+			// caller, which only learns the relation to a havoced snapshot
+			n.st = ex.atlockCallee(ce.old)
+		} else {
+			ce.fail(x, "atlock() needs exactly one monitor acquisition in the function")
+		}
+		return n.eval(x.Args[0]), true
 	case "iter": // value at the start of the current loop iteration (only in `loop N step` clauses)
 		if ce.fr == nil || ce.fr.curIter == nil {
 			ce.fail(x, "iter() outside a step clause")
@@ -945,9 +986,25 @@ func (ce *cenv) evalAddr(e ast.Expr) Val {
 					return ce.fr.bind[i]
 				}
 			}
-			if vs := ce.ex.w.localDefs(ce.fr.fn)[x.Name]; len(vs) == 1 && vs[0].addr {
-				if v, ok := ce.fr.vals[vs[0].val]; ok {
-					return v
+			for _, b := range ce.fr.fn.Blocks {
+				for _, ins := range b.Instrs {
+					if a, ok := ins.(*ssa.Alloc); ok && a.Comment == x.Name {
+						if pv, have := ce.fr.vals[a]; have {
+							return pv
+						}
+					}
+				}
+			}
+			for _, d := range ce.ex.w.localDefs(ce.fr.fn)[x.Name] {
+				if d.addr {
+					if v, ok := ce.fr.vals[d.val]; ok {
+						return v
+					}
+				}
+			}
+			if ce.fr.fn.Parent() != nil {
+				if p, ok := ce.ex.parentLocal(ce.fr.fn, x.Name); ok {
+					return p
 				}
 			}
 		}
